@@ -4,6 +4,7 @@ import os
 import hashlib
 import importlib
 import inspect
+import json
 import math
 import pkgutil
 import random
@@ -143,6 +144,10 @@ def shards(tier, seed):
                 "npairs": 0})
     out.append({"name": "suite", "module": "__suite__", "ncalls": 0,
                 "npairs": 0})
+    for k in range(8 if tier == "thorough" else 2):
+        out.append({"name": "orders-%d" % k, "module": "__orders__",
+                    "ncalls": 1500 if tier == "thorough" else 500,
+                    "npairs": 0})
     for k in range(4 if tier == "thorough" else 1):
         out.append({"name": "threads-%d" % k, "module": "__threads__",
                     "ncalls": 1500 if tier == "thorough" else 200,
@@ -1649,6 +1654,135 @@ def case_threads(mon, njobs, seedval):
     uni.quiesce(force=True)
 
 
+# ------------------------------------------------- order between processes
+def _nudge(rng, args):
+    """The argument list with one number, Epoch or Angle moved a hair (1e-9 to
+    4e-4 of its size) or one integer moved to a value that shares low-order
+    structure with it (+-100, +-400, sign)."""
+    from pymeeus.Epoch import Epoch
+    from pymeeus.Angle import Angle
+    idx = [i for i, a in enumerate(args)
+           if (isinstance(a, (int, float)) and not isinstance(a, bool))
+           or type(a).__name__ in ("Epoch", "Angle")]
+    if not idx:
+        return None
+    out = copy.deepcopy(args)
+    i = rng.choice(idx)
+    a = out[i]
+    d = rng.choice((1e-9, 1e-7, 3e-6, 4e-5, 4e-4)) * rng.choice((1, -1))
+    if isinstance(a, float):
+        out[i] = a + d * max(1.0, abs(a))
+    elif isinstance(a, int):
+        out[i] = rng.choice((a + 400, a - 400, -a, a + 100, a - 100))
+    elif type(a).__name__ == "Epoch":
+        out[i] = Epoch(a.jde() + d * rng.choice((1, 100, 1000)))
+    else:
+        out[i] = Angle(a._deg + d * rng.choice((1, 10)))
+    return out
+
+
+def _orders_items(seedval, n):
+    """A list of (qualified name, callable, args): n generated calls, each
+    followed by two calls of the same function (and receiver) on arguments
+    next to its own.  Deterministic in (seedval, n)."""
+    rng = random.Random(seedval)
+
+    class _Null(object):
+        def __getattr__(self, name):
+            return lambda *a, **k: None
+    uni = Universe(_Null(), rng)
+    uni.digest = None
+    targets = [t for t in discover()
+               if t[3] not in RETURNS_NONE
+               and ((t[2] + "." + t[3]) if t[2] else t[3]) not in MUTATORS]
+    items = []
+    for _ in range(n):
+        t = rng.choice(targets)
+        try:
+            b = uni.build(t)
+        except Exception:
+            b = None
+        if b is None:
+            continue
+        fn, args, inst, short = b
+        items.append((t[0], fn, args))
+        for _k in range(2):
+            try:
+                a2 = _nudge(rng, args)
+            except Exception:
+                a2 = None
+            if a2 is not None:
+                items.append((t[0], fn, a2))
+    return items
+
+
+def _orders_eval(items, order):
+    import hashlib
+    out = {}
+    for i in order:
+        qual, fn, args = items[i]
+        try:
+            before = repr(snap(args))
+        except Exception as ex:
+            before = "unsnappable " + type(ex).__name__
+        try:
+            r = repr(snap(fn(copy.deepcopy(args))))
+        except Exception as ex:
+            r = "raised " + type(ex).__name__
+        out[i] = [hashlib.sha1(before.encode()).hexdigest()[:16],
+                  hashlib.sha1(r.encode()).hexdigest()[:16], r[:200]]
+    return out
+
+
+def _orders_child():
+    """Entry point of the second process: the same list, last call first."""
+    import sys
+    from vpm import env
+    env.ensure_deps()
+    env.import_repo()
+    seedval, n = int(sys.argv[1]), int(sys.argv[2])
+    items = _orders_items(seedval, n)
+    res = _orders_eval(items, range(len(items) - 1, -1, -1))
+    json.dump({str(k): v for k, v in res.items()}, sys.stdout)
+
+
+def case_orders(mon, seedval, n):
+    """Equal arguments, equal results, whatever was called before - across
+    processes: this process makes a list of calls first to last (each call
+    followed by calls of the same function on neighbouring arguments); a
+    fresh process makes the same calls last to first.  An answer that depends
+    on which neighbour was asked first (a result kept under a rounded or
+    partial key) differs between the two."""
+    import subprocess
+    import sys
+    from vpm import env
+    items = _orders_items(seedval, n)
+    here = _orders_eval(items, range(len(items)))
+    p = subprocess.run(
+        [sys.executable, "-c",
+         "from vpm.props import c20; c20._orders_child()", str(seedval),
+         str(n)], cwd=env.VERIF, capture_output=True, text=True,
+        timeout=3000, env=dict(os.environ, PYTHONPATH=env.VERIF,
+                               PYTHONHASHSEED="0"))
+    if p.returncode != 0:
+        raise RuntimeError("orders child failed: " + p.stderr[-800:])
+    there = json.loads(p.stdout)
+    compared = 0
+    for i, (qual, fn, args) in enumerate(items):
+        a, b = here[i], there.get(str(i))
+        if b is None or a[0] != b[0]:
+            mon.refusal("orders:arguments-not-reproduced:" + qual)
+            continue
+        compared += 1
+        mon.evals += 2
+        mon.cls("same-call-in-two-processes", ("ord", seedval, i))
+        mon.check("equal-args-equal-results-in-any-order", a[1] == b[1],
+                  lambda: {"f": qual, "args": args, "position_in_list": i,
+                           "first_to_last": a[2], "last_to_first": b[2]},
+                  qual)
+    mon.hit("orders-compared", compared)
+
+
 def case_inventory(mon):
     """Every public function and method the pinned tree has is still there
     (possibly decorated) and of the same kind; totality is quantified over
@@ -2117,7 +2251,8 @@ def key_oor(name, ex):
 
 
 CASES = {"inventory": case_inventory, "kworder": case_kworder, "module": case_module, "copies": case_copies,
-         "out_of_range": case_out_of_range, "threads": case_threads}
+         "out_of_range": case_out_of_range, "threads": case_threads,
+         "orders": case_orders}
 
 
 def run(mon, spec):
@@ -2132,6 +2267,10 @@ def run(mon, spec):
     if spec["module"] == "__threads__":
         mon.begin("threads", [spec["ncalls"], sv])
         case_threads(mon, spec["ncalls"], sv)
+        return
+    if spec["module"] == "__orders__":
+        mon.begin("orders", [sv, spec["ncalls"]])
+        case_orders(mon, sv, spec["ncalls"])
         return
     if spec["module"] == "__copies__":
         mon.begin("copies", [sv])
